@@ -172,6 +172,10 @@ def generate(seed, tier="quick"):
             base_of[p] = t if False else base_of[p]
             # the model decides at run time; for generation keep using the old base
             base_of[p] = base
+        elif c < 0.54 and not fits:
+            # the file is USED as a prior-sample library by the sampler in between (a sampler call must leave the
+            # file closed and untouched: later appends / rewrites still have to work)
+            ops.append({"id": oid, "op": "sample", "path": p, "return_logprobs": rnd.random() < 0.6})
         elif c < 0.70:
             ops.append({"id": oid, "op": "read", "path": p, "via": "h5py" if (not fits and rnd.random() < 0.3) else "name"})
         else:
@@ -356,6 +360,7 @@ def run(program):
         sfilt = inject.storage_filter()
         tables = copy.deepcopy(program["config"]["tables"])  # run-time copy: a `mutate` op edits the spec of a live object
         built = {}
+        sampler = {}
         model = {}  # path -> None | FileModel | "unknown"
         distinct = set()
         for op in program["ops"]:
@@ -403,6 +408,33 @@ def run(program):
                     return read_batch(path, op["columns"], so, units=uu, rng=g)
                 raise ValueError(kind)
 
+            if kind == "sample":
+                need = ["P", "e", "omega", "M0", "s"] + (["ln_prior"] if op.get("return_logprobs") else [])
+                if not isinstance(m, FileModel) or any(c not in m.cols for c in need):
+                    probe("sample_op_skipped(file lacks the nonlinear columns)")
+                    log.add("op-end", kind, None, "skipped")
+                    continue
+                if "joker" not in sampler:
+                    import astropy.units as uu
+                    from astropy.time import Time
+
+                    from sim import world
+
+                    pr = world.get_prior(world.PRIOR_PALETTE[0])
+                    gg = tape.np_sub(7, "c12-data")
+                    tt = Time(58000.0 + np.sort(gg.uniform(0, 200, 5)), format="mjd", scale="tcb")
+                    sampler["data"] = tj.RVData(t=tt, rv=gg.normal(0, 5, 5) * uu.km / uu.s, rv_err=np.full(5, 50.0) * uu.km / uu.s)
+                    sampler["joker"] = tj.TheJoker(pr, rng=np.random.default_rng(5))
+                try:
+                    sampler["joker"].rejection_sample(sampler["data"], path, return_logprobs=bool(op.get("return_logprobs")), n_batches=1, max_posterior_samples=2)
+                    outcome = "ok"
+                except Exception as e:  # noqa: BLE001 - the outcome of sampling is not C12's business
+                    outcome = type(e).__name__
+                probe("sample_op:" + ("ok" if outcome == "ok" else "raised"))
+                if _sha(path) != sha0:
+                    v.append(Violation(PROPERTY, "C12.file-altered", sig + ":sampler-altered-the-library-file", str(op)))
+                log.add("op-end", kind, None, outcome)
+                continue
             if kind == "mutate":
                 ti = op["table"]
                 if ti not in built:
